@@ -218,6 +218,16 @@ Definition pm_timeb (m : pm) : bool :=
 Definition pm_invb (m : pm) : bool :=
   pm_rangeb m && ((pm_res m <=? 0) || pm_timeb m).
 
+(** * What pretty_midi's own container constructors enforce (TimeSignature: positive
+    numerator and denominator, time >= 0; KeySignature: 0 <= key_number < 24, time >= 0;
+    Note: end >= start).  Every object a byte string parses to satisfies it (monitored);
+    the harness builds, compares and judges constructed objects only inside it.  The
+    theorems below do not need it ([pm_invb] alone suffices), it only sharpens them. *)
+Definition pm_ctorb (m : pm) : bool :=
+  forallb (fun t => (1 <=? pt_num t) && (1 <=? pt_den t) && (0 <=? pt_time t)) (pm_tsigs m) &&
+  forallb (fun k => (0 <=? pk_number k) && (pk_number k <=? 23) && (0 <=? pk_time k)) (pm_keys m) &&
+  forallb (fun i => forallb (fun n => pn_start n <=? pn_end n) (pi_notes i)) (pm_insts m).
+
 (** * Which exception classes CAN surface, over every order in which the independent
     assignments might be executed.  The code fills independent repeated fields (time
     signatures, keys, infos, notes, bends, control changes); which failing assignment is
